@@ -46,6 +46,7 @@ type driver struct {
 	seen  map[[32]byte]bool
 	defs  []string
 	thor  bool
+	hangs int
 	stats map[string]int
 }
 
@@ -210,8 +211,21 @@ func (d *driver) oracle(sc *fx.Scenario, f fx.Fault, obs *fx.Obs, bi *baseInfo) 
 	}
 }
 
+// maxHangs bounds the cost of a library that hangs: every hanging run costs the whole
+// watchdog, so after this many expiries the faults that rely on the library being woken
+// up (silent peer, blocking write) are no longer enumerated; the skipped runs are counted
+// in the histogram ("skipped:after-repeated-hangs") and the hangs themselves are reported.
+const maxHangs = 3
+
 func (d *driver) one(sc *fx.Scenario, f fx.Fault, bi *baseInfo) fx.Obs {
+	if d.hangs >= maxHangs && (f.Kind == "silent" || f.Kind == "wblock") {
+		d.res.Histogram["skipped:after-repeated-hangs"]++
+		return fx.Obs{}
+	}
 	obs := fx.Run(sc, f, d.mat)
+	if obs.TimedOut {
+		d.hangs++
+	}
 	if os.Getenv("C04_DEBUG") != "" {
 		fmt.Fprintf(os.Stderr, "%s %+v -> err=%v %q state=%d fired=%v/%d timedout=%v panic=%q ops=%d/%d %v\n", sc.Name, f, obs.HasErr, obs.Err, obs.State, obs.Fired, obs.FiredModel, obs.TimedOut, obs.Panic, obs.RawOps, obs.ModelOps, obs.Elapsed)
 	}
